@@ -975,12 +975,14 @@ class _FunctionInformationCollector(ast.RopeNodeVisitor):
 
     @contextmanager
     def _handle_loop_context(self, node):
-        if node.lineno < self.start:
+        surrounds_region = node.lineno < self.start
+        if surrounds_region:
             self.loop_depth += 1
         try:
             yield
         finally:
-            self.loop_depth -= 1
+            if surrounds_region:
+                self.loop_depth -= 1
 
 
 def _get_argnames(arguments):
